@@ -51,6 +51,7 @@ CFG = {
         "Swat4.C16.mark_preserved_probeRetry",
         "Swat4.C16.pop_strict_held",
         "Swat4.C16.pop_complete_backed",
+        "Swat4.C16.facts_item_id_uses",
     ],
     "shards": (1, 16),
     "nontrivial": _nontrivial,
